@@ -172,6 +172,10 @@ func PESHeader(packet *Packet) ([]byte, error) {
 // Header Returns a slice containing the Packer Header.
 func Header(packet *Packet) []byte {
 	start := payloadStart(packet)
+	if start > len(packet) {
+		// an adaptation_field_length beyond the packet: the header is all there is
+		start = len(packet)
+	}
 	return packet[:start]
 }
 
